@@ -45,7 +45,9 @@ LQ == INSTANCE LinQueue WITH LqThreads <- Procs, LqCap <- N, LqRelaxEmpty <- Rel
 NoCur == [p \in Procs |-> "none"]
 Extra == resv + (IF HeldTakeCap THEN held ELSE 0)
 
-Tm0 == [accC |-> <<>>, accR |-> <<>>, call |-> [p \in Procs |-> 0], poll |-> [p \in Procs |-> <<0, 0>>]]
+Tm0 == [accC |-> <<>>, accR |-> <<>>, call |-> [p \in Procs |-> 0], poll |-> [p \in Procs |-> <<0, 0>>],
+        live |-> -1,   \* streams alive (set from the reset event; -1: unknown)
+        churn |-> 0]   \* create / drop_stream calls in progress
 Init0 == /\ cands = LQ!LqInit0 /\ pend = LQ!LqNoPend /\ cur = NoCur /\ curv = [p \in Procs |-> 0]
          /\ resv = 0 /\ held = 0 /\ accS = <<>> /\ delS = <<>> /\ rejS = <<>>
          /\ parked = [p \in Procs |-> FALSE] /\ cancelled = FALSE /\ frozen = {}
@@ -55,14 +57,16 @@ TraceInit == Init0 /\ TBInit
 TReset == /\ Ev.k = "reset"
           /\ cands' = LQ!LqInit0 /\ pend' = LQ!LqNoPend /\ cur' = NoCur /\ curv' = [p \in Procs |-> 0]
           /\ resv' = 0 /\ held' = 0 /\ accS' = <<>> /\ delS' = <<>> /\ rejS' = <<>>
-          /\ parked' = [p \in Procs |-> FALSE] /\ cancelled' = FALSE /\ frozen' = {} /\ tm' = Tm0
+          /\ parked' = [p \in Procs |-> FALSE] /\ cancelled' = FALSE /\ frozen' = {}
+          /\ tm' = [Tm0 EXCEPT !.live = IF "streams" \in DOMAIN Ev.x THEN Ev.x.streams ELSE -1]
 
 SendOps == {"send", "send_with", "send_async", "send_reserved"}
 Count(s, v) == Cardinality({i \in 1..Len(s) : s[i] = v})
 Range(s) == {s[i] : i \in 1..Len(s)}
 
 TCall == /\ Ev.k = "call" /\ ~IsNopCall
-         /\ tm' = IF Ev.x.op \in SendOps \cup {"poll"} THEN [tm EXCEPT !.call[P] = l] ELSE tm
+         /\ tm' = IF Ev.x.op \in SendOps \cup {"poll", "pending"} THEN [tm EXCEPT !.call[P] = l]
+                  ELSE IF Ev.x.op \in {"create", "drop_stream"} THEN [tm EXCEPT !.churn = @ + 1] ELSE tm
          /\ IF Ev.x.op \in SendOps
             THEN /\ cands' = LQ!LqCall(cands, pend, P, [op |-> "enq", v |-> Ev.x.v], Extra)
                  /\ pend' = [pend EXCEPT ![P] = [op |-> "enq", v |-> Ev.x.v]]
@@ -104,7 +108,9 @@ TRetPoll == /\ cur[P] = "deq"
 
 TRetOther ==
     /\ cur[P] = "none"
-    /\ UNCHANGED tm
+    /\ tm' = IF Ev.fn = "create" THEN [tm EXCEPT !.churn = @ - 1, !.live = IF @ < 0 THEN @ ELSE @ + Len(Ev.x.ids)]
+             ELSE IF Ev.fn = "drop_stream" THEN [tm EXCEPT !.churn = @ - 1, !.live = IF @ < 0 \/ ~Ev.x.ok THEN @ ELSE @ - 1]
+             ELSE tm
     /\ IF Ev.fn = "reserve" /\ Ev.x.ok
        THEN /\ resv' = resv + 1
             /\ cands' = LQ!LqClose(cands, pend, Extra + 1)
@@ -118,7 +124,7 @@ TRetOther ==
        ELSE IF Ev.fn = "release_all"
        THEN /\ held' = held - Ev.x.v
             /\ UNCHANGED <<cands, pend, cur, curv, resv, accS, delS, rejS, parked, cancelled, frozen>>
-       ELSE UNCHANGED vars
+       ELSE UNCHANGED <<cands, pend, cur, curv, resv, held, accS, delS, rejS, parked, cancelled, frozen>>
 
 TRet == Ev.k = "ret" /\ ~IsNopRet /\ (TRetSend \/ TRetPoll \/ TRetOther)
 
@@ -162,7 +168,7 @@ Overlaps(i, p) == tm.accC[i] < tm.poll[p][2] /\ tm.accR[i] > tm.poll[p][1]
 Racing == \E i \in 1..Len(accS) : (accS[i] \in Undelivered(0)) /\ \E p \in Procs : parked[p] /\ Overlaps(i, p)
 
 FinalBad(x) ==
-    IF x.hard THEN (IF On("InvNoStall") THEN "InvNoStall" ELSE "")
+    IF x.hard THEN (IF On("InvNoStall") THEN (IF frozen # {} THEN "InvNoStallWhileSuspended" ELSE "InvNoStall") ELSE "")
     ELSE IF On("InvNoUseAfterFree") /\ Len(x.anomalies) > 0 THEN "InvNoUseAfterFree"
     ELSE IF On("InvDestroyedAtMostOnce") /\ (\E i \in 1..Len(x.drops) : x.drops[i][2] > 1) THEN "InvDestroyedAtMostOnce"
     ELSE IF On("InvDestroyedExactlyOnce") /\ x.torn_down /\ x.tracked /\ (\E i \in 1..Len(x.drops) : x.drops[i][2] # 1) THEN "InvDestroyedExactlyOnce"
@@ -172,7 +178,10 @@ FinalBad(x) ==
     ELSE IF On("InvCancelEndsStreams") /\ cancelled /\ Quiet /\ ParkedSome THEN "InvCancelEndsStreams"
     ELSE ""
 
-EvBadU == IF On("InvRejectedSetterUninvoked") /\ Ev.k = "ret" /\ Ev.fn \in {"send_with", "send_async"} /\ ~Ev.x.ok /\ Ev.x.inv /\ (Ev.fn = "send_with" \/ Ev.x.done)
+OthersIdle == \A p \in Procs \ {P} : cur[p] = "none"
+EvBadU == IF On("InvRunningCount") /\ Ev.k = "ret" /\ Ev.fn = "running" /\ tm.churn = 0 /\ tm.live >= 0 /\ Ev.x.v # tm.live THEN "InvRunningCount"
+          ELSE IF On("InvPendingCount") /\ Ev.k = "ret" /\ Ev.fn = "pending" /\ OthersIdle /\ l = tm.call[P] + 1 /\ cands # {} /\ (\A c \in cands : Len(c.q) # Ev.x.v) THEN "InvPendingCount"
+          ELSE IF On("InvRejectedSetterUninvoked") /\ Ev.k = "ret" /\ Ev.fn \in {"send_with", "send_async"} /\ ~Ev.x.ok /\ Ev.x.inv /\ (Ev.fn = "send_with" \/ Ev.x.done)
           THEN "InvRejectedSetterUninvoked"
           ELSE IF Ev.k = "final" THEN FinalBad(Ev.x)
           ELSE IF On("NoPanic") THEN EvBad ELSE ""
